@@ -11,6 +11,7 @@
   every node keeps key, value, identifier and stamp (only `next` may differ).
 -/
 import QlibcModel.Tree.WalkHistory
+import QlibcModel.Shapes.Tree
 
 namespace Qlibc.Props.C04
 open Qlibc Qlibc.Tree T
